@@ -79,6 +79,14 @@ CHECKS = {
   "discharged through findFileMarker's contract (loop invariant: no marker before the scan position).",
   "assumed: extern contracts for bytes.* and strings.TrimSpace; Quote/Unquote clauses are not yet under contract and are not claimed by this check",
   "contract-based deductive verification: VCs over go/ssa with a loop invariant, discharged by z3/cvc5; counterexamples replayed with go test -overlay"),
+ "C02": ("5 C02",
+  "Contracts on the tokenizer parse (every line[i], line[i+1], line[start:i] in bounds for every line; the scan terminates; every call of expand happens outside quotes, i.e. quoted text is never expanded), "
+  "on the expansion closure (${NAME@R} is regexp.QuoteMeta of NAME's value, any other key its value), on Getenv/Setenv (Setenv appends key=value to the child environment list and sets the same value in the lookup map), "
+  "and call-site obligations that exec and execBackground start the child with Dir = the script's directory and Env = the script's list plus PWD. "
+  "The splitting function itself (words, '' , #, no re-splitting / re-expansion of values) is compared with a reference tokenizer written from the property text by a bounded stand-in.",
+  "assumed: os.Expand applies the mapping to $NAME / ${NAME} references (its grammar is not modelled), regexp.QuoteMeta matches exactly its argument, os/exec uses the last duplicate in Env; waitOrStop, pty helpers and execpath.Look are trusted (pure); "
+  "the pointwise agreement of the env list with envMap across all assignments (lastVal) is not stated as an invariant, only the per-Setenv step; bounded: tokenizer vs reference over lines of up to 5 (quick) / 6 (thorough) tokens from a 10-token vocabulary with two variables whose values contain blanks, quotes and a $ reference",
+  "contract-based deductive verification (safety, termination and call-site obligations over go/ssa; z3/cvc5) plus a labelled bounded stand-in for the tokenizer's functional behaviour"),
  "C03": ("5 C03",
   "Contracts on txtar.isMarker (and, as they are added, findFileMarker/fixNL/Parse) are discharged by SMT for every byte string: "
   "every index/slice expression is in bounds (Parse cannot panic there) and the results equal the marker vocabulary written from the format text.",
